@@ -496,6 +496,32 @@ fn write_case(out: &mut dyn Write, id: &str, tag: &str, seed: u64, fault: Option
   for r in recs {
     writeln!(out, "T {} {} {} | {}", r.enter, r.exit, call_str(&r.call), resp_str(&r.resp)).unwrap();
   }
+  // what the REAL Mapper (one instance, as the loop uses it) returns for the inputs this transcript delivered: a key event
+  // read while the switch is off is a step, a tablet event a release_all.  Lets the checker tell "the loop wrote something
+  // else than the mapper returned" (the loop's business) from "the mapper returned something else than its model"
+  // (the mapper properties' business, mapper engine).
+  let rm = catch_unwind(AssertUnwindSafe(|| {
+    let layout = Layout { mappings: mappings.clone() };
+    let mut mapper = crate::key_transforms::Mapper::for_layout(&layout);
+    let mut tablet = false;
+    let mut lines: Vec<String> = vec![];
+    for (i, r) in recs.iter().enumerate() {
+      match (&r.call, &r.resp) {
+        (CallRec::Kbd, RespRec::KOne(ev)) => {
+          if !tablet { let evs = mapper.step(ev.clone()).events; lines.push(format!("RM {} {} {}", i, evs.len(), evs_str(&evs))); }
+          else { lines.push(format!("RM {} 0 ", i)); }
+        },
+        (CallRec::Tab, RespRec::TOne(on)) => {
+          tablet = *on;
+          let evs = mapper.release_all();
+          lines.push(format!("RM {} {} {}", i, evs.len(), evs_str(&evs)));
+        },
+        _ => {}
+      }
+    }
+    lines
+  }));
+  if let Ok(lines) = rm { for l in lines { writeln!(out, "{}", l).unwrap(); } }
   writeln!(out, "OUT {}", outcome_str(outcome)).unwrap();
   writeln!(out, "UNREAD {}", unread).unwrap();
   writeln!(out, "END").unwrap();
